@@ -16,6 +16,7 @@ import Driver.C04
 import Driver.C07
 import Driver.C06
 import Driver.C08
+import Driver.C15
 /-! `votca_driver`: reads protocol lines `Cxx <op> <args…>` (implementation outputs included) on stdin,
 runs the executable model definitions (the ones the theorems are about) on the same inputs, prints
 `DISAGREE` / `PROPFAIL` lines for the cases that do not check and a `SUMMARY` at the end. -/
@@ -51,6 +52,7 @@ def dispatch (toks : List String) : Verdict :=
   | "C07" :: r => Driver.C07.handle r
   | "C06" :: r => Driver.C06.handle r
   | "C08" :: r => Driver.C08.handle r
+  | "C15" :: r => Driver.C15.handle r
   | _ => { agree := false, msg := "bad-line unknown property", tag := "bad" }
 
 partial def loop (h : IO.FS.Stream) (maxPrint : Nat) (acc : DAcc) : IO DAcc := do
